@@ -148,10 +148,22 @@ class PiMul:
 class SymSeq:
     """symbolic-length sequence: length term + k-th element function (generators, product)"""
 
-    def __init__(s, length, elem, note=''):
+    def __init__(s, length, elem, note='', coords=None):
         s.length = length
         s.elem = elem
         s.note = note
+        # coords = (sizes, fn): the sequence enumerates fn(J) for J over the full box range(sizes[0]) x ...
+        # in lexicographic order (last coordinate fastest) - set by itertools.product over ranges and
+        # propagated through map / zip / comprehensions / generator bodies (the map-loop rule needs it)
+        s.coords = coords
+
+    def derive(s, f, note):
+        """sequence of f(element)"""
+        c = None
+        if s.coords is not None:
+            sizes, fn = s.coords
+            c = (sizes, lambda J, fn=fn: f(fn(J)))
+        return SymSeq(s.length, lambda k: f(s.elem(k)), note, c)
 
 
 def q(x):
